@@ -3,7 +3,8 @@
 From Coq Require Import ZArith List QArith Qcanon.
 From Batchie Require Import Lib.Sexp Lib.Num Model.Chunks Model.DistMat Model.Mse
   Proofs.C07Chunks Proofs.C07DistMat Proofs.C07Mse Proofs.C07Src Generated.SrcArith
-  Lib.PyRt Generated.SrcChunks Proofs.C07Source.
+  Lib.PyRt Generated.SrcChunks Proofs.C07Source Generated.SrcDistMat Generated.SrcMse Proofs.C07SourceMat
+  Proofs.C07SourceMse Proofs.C07SourcePipeline.
 Import ListNotations.
 
 (* the chunk arithmetic the theorems are about IS the source's arithmetic: src_chunk_bounds is
@@ -32,6 +33,109 @@ Theorem C07_model_is_source_get_lower_triangular_indices_chunk :
   (forall (n k c : Z) l, (n <= 0)%Z -> chunk_checked n k c = Ok l -> l = []).
 Proof. exact (conj src_chunk_is_model (conj chunk_checked_in_range chunk_checked_negative)). Qed.
 Print Assumptions C07_model_is_source_get_lower_triangular_indices_chunk.
+
+(* ---- ChunkedDistanceMatrix, method by method.  The translations work on the object as it is stored (DistMat.cdm: size,
+   chunk_size, current_index and the three parallel arrays as lists); the model's entry list is read off by the
+   representation map dm_of_storage (entry k = (row_indices[k], col_indices[k], values[k]), k < current_index).
+   storage_ok is what every constructed object satisfies (three arrays of one length, current_index within it, every slot
+   from current_index on still zero); each theorem re-establishes it for the object it returns (storage_refines).
+   V is the type of a stored value, vzero the zero np.zeros fills with, visz the test `x == 0`. ---- *)
+
+(* __init__: `if chunk_size:` takes the argument unless it is None or 0 and otherwise falls back to the length of the
+   chunk (init_chunk_size); a negative size is refused by np.zeros; the new object is well formed and represents the
+   empty matrix *)
+Theorem C07_model_is_source_init : forall (V : Type) (vzero : V) (visz : V -> bool), visz vzero = true ->
+  (forall (self0 : cdm V) (size n_chunks chunk_index : Z) (chunk_size : option Z),
+     src_cdm_init V vzero visz self0 size n_chunks chunk_index chunk_size
+     = dor c <- init_chunk_size size n_chunks chunk_index chunk_size;
+       if (c <? 0)%Z then Err 13%Z else Ok (cdm_fresh vzero size c)) /\
+  (forall size c : Z, (0 <= c)%Z ->
+     storage_ok vzero visz (cdm_fresh vzero size c) /\ dm_of_storage vzero (cdm_fresh vzero size c) = dm_empty V size).
+Proof. exact (fun V vzero visz H => conj (src_init_is_model V vzero visz) (fresh_ok V vzero visz H)). Qed.
+Print Assumptions C07_model_is_source_init.
+
+(* add_value (with _expand_storage, translated too): on a well-formed object with room - a free slot, or a positive
+   chunk_size to grow by - it is the model's add_value: the bounds guard (>=), the order guard (<), then the entry appended;
+   none of the three "already calculated" tests can fire.  Without room (an object built for an EMPTY chunk: chunk_size 0)
+   a value that passes the guards meets an IndexError. *)
+Theorem C07_model_is_source_add_value : forall (V : Type) (vzero : V) (visz : V -> bool) (st : cdm V) (i j : Z) (v : V),
+  storage_ok vzero visz st ->
+  (has_room st ->
+   storage_refines vzero visz (src_cdm_add_value V vzero visz st i j v) (add_value V (dm_of_storage vzero st) i j v)) /\
+  (~ has_room st ->
+   src_cdm_add_value V vzero visz st i j v
+   = if ((i >=? c_size st) || (j >=? c_size st))%Z then Err 1%Z else if (i <? j)%Z then Err 2%Z else Err 98%Z).
+Proof.
+  exact (fun V vzero visz st i j v H =>
+    conj (src_add_value_is_model V vzero visz st i j v H) (src_add_value_no_room V vzero visz st i j v H)).
+Qed.
+Print Assumptions C07_model_is_source_add_value.
+
+Theorem C07_model_is_source_is_complete : forall (V : Type) (vzero : V) (visz : V -> bool) (st : cdm V),
+  storage_ok vzero visz st ->
+  src_cdm_is_complete V vzero visz st = Ok (is_complete V (dm_of_storage vzero st)).
+Proof. exact src_is_complete_is_model. Qed.
+Print Assumptions C07_model_is_source_is_complete.
+
+(* combine: the size test, the copy of self's used prefix into a new object, then every entry of other whose (row, col)
+   is not among the keys stored so far, through the translated add_value.  The side condition says the new object can
+   take a value (it is built with chunk_size = self.current_index, or - when that is 0 - the number of all pairs, which is
+   0 only for size < 2): a matrix of size < 2 is not combined with one that holds a value *)
+Theorem C07_model_is_source_combine : forall (V : Type) (vzero : V) (visz : V -> bool), visz vzero = true ->
+  forall a b : cdm V, storage_ok vzero visz a -> storage_ok vzero visz b ->
+  (c_cur b = 0 \/ c_cur a <> 0 \/ 2 <= c_size a)%Z ->
+  storage_refines vzero visz (src_cdm_combine V vzero visz a b)
+                  (combine V (dm_of_storage vzero a) (dm_of_storage vzero b)).
+Proof. exact src_combine_is_model. Qed.
+Print Assumptions C07_model_is_source_combine.
+
+(* concat (roomy: a matrix that holds a value has size >= 2 - there is no pair below the diagonal otherwise) *)
+Theorem C07_model_is_source_concat : forall (V : Type) (vzero : V) (visz : V -> bool), visz vzero = true ->
+  forall ms : list (cdm V), Forall (storage_ok vzero visz) ms -> Forall roomy (tl ms) ->
+  storage_refines vzero visz (src_cdm_concat V vzero visz ms) (dm_concat V (map (dm_of_storage vzero) ms)).
+Proof. exact src_concat_is_model. Qed.
+Print Assumptions C07_model_is_source_concat.
+
+(* to_dense: the refusal of an incomplete matrix, then both cells (i, j) and (j, i) of a zero matrix written per entry,
+   for an object whose stored index pairs address cells of the matrix (entries_in_range) *)
+Theorem C07_model_is_source_to_dense : forall (V : Type) (vzero : V) (visz : V -> bool) (st : cdm V),
+  storage_ok vzero visz st -> entries_in_range st ->
+  src_cdm_to_dense V vzero visz st = to_dense V vzero (dm_of_storage vzero st).
+Proof. exact src_to_dense_is_model. Qed.
+Print Assumptions C07_model_is_source_to_dense.
+
+(* calculate_pairwise_distance_matrix_on_predictions for ANY holder / prediction method / metric (get_theta, predict,
+   dist): for a chunk index in range it is the model's compute_chunk with d i j = dist (predict (get_theta i))
+   (predict (get_theta j)); outside the range it fails as get_lower_triangular_indices_chunk does, before any distance *)
+Theorem C07_model_is_source_calculate_pairwise : forall (V : Type) (vzero : V) (visz : V -> bool), visz vzero = true ->
+  forall (Th Pr : Type) (get_theta : Z -> Th) (predict : Th -> Pr) (dist : Pr -> Pr -> V),
+  (forall (n : nat) (k c : Z), (0 <= k < c)%Z ->
+     storage_refines vzero visz
+       (src_calculate_pairwise V vzero visz Th Pr (Z.of_nat n) get_theta predict dist k c)
+       (compute_chunk V (metric_of V Th Pr get_theta predict dist) n k c)) /\
+  (forall (n k c t : Z), chunk_checked n k c = Err t ->
+     src_calculate_pairwise V vzero visz Th Pr n get_theta predict dist k c = Err t).
+Proof.
+  exact (fun V vzero visz H Th Pr g p d =>
+    conj (src_calculate_is_model V vzero visz H Th Pr g p d) (src_calculate_bad_chunk V vzero visz Th Pr g p d)).
+Qed.
+Print Assumptions C07_model_is_source_calculate_pairwise.
+
+(* the translated functions composed as the command line composes them (one calculate_... per listed chunk index, concat,
+   to_dense) ARE the model's pipeline, the subject of C07_assemble / C07_incomplete_refused *)
+Theorem C07_model_is_source_pipeline : forall (V : Type) (vzero : V) (visz : V -> bool), visz vzero = true ->
+  forall (Th Pr : Type) (get_theta : Z -> Th) (predict : Th -> Pr) (dist : Pr -> Pr -> V) (n : nat) (c : Z) (order : list Z),
+  order <> [] -> (forall k, In k order -> (0 <= k < c)%Z) ->
+  src_pipeline V vzero visz Th Pr get_theta predict dist n c order
+  = pipeline V vzero (metric_of V Th Pr get_theta predict dist) n c order.
+Proof. exact src_pipeline_is_model. Qed.
+Print Assumptions C07_model_is_source_pipeline.
+
+(* MSEDistance.distance on two prediction vectors of one length (expit the oracle, numpy's - ** mean as primitives) *)
+Theorem C07_model_is_source_mse_distance : forall (orc : oracle) (sigmoid : bool) (a b : list Qc), length a = length b ->
+  src_mse_distance orc sigmoid a b = mse_distance orc sigmoid a b.
+Proof. exact src_mse_is_model. Qed.
+Print Assumptions C07_model_is_source_mse_distance.
 
 (* the chunks, concatenated in index order, are the enumeration of all pairs i>j *)
 Theorem C07_chunks_partition : forall n c, (0 < c)%nat -> concat (all_chunks n c) = lower_tri n.
